@@ -2,13 +2,19 @@
 configuration variable EastAsianAmbiguousWidth set to other values than the default, in separate
 harness processes (the default run is the main stage).
 C15: 0, 2, 3 and 7. C06 (whose width model has the case "EastAsianAmbiguousWidth if Ambiguous"): 0 and 2.
-C10 (U+FFFD is East Asian Ambiguous, so the width of an ill-formed byte depends on the setting): 2."""
+C10 (U+FFFD is East Asian Ambiguous, so the width of an ill-formed byte depends on the setting): 2.
+C01-C04 (segmentation must not depend on the setting): model=code (E5, lines also E3) and real=spec (SPEC) under 2."""
 import json, os, subprocess
 
 CONF = {
     "C15": dict(settings=(0, 2, 3, 7), stages="RW,E5,WIDTHSPEC", only="fg,st,sts,sw", monitors="", small=(2,)),
     "C06": dict(settings=(0, 2), stages="RW,E5,WIDTHSPEC", only="fg,st,sts,sw", monitors="C06", small=(2,)),
     "C10": dict(settings=(2,), stages="E5", only="fg,st,sts,sw", monitors="C10", small=(2,)),
+    # segmentation must not depend on the setting: model=code and real=spec once more under 2
+    "C01": dict(settings=(2,), stages="E5,SPEC", only="fg,gcc", monitors="C01", small=(2,), spec="fg"),
+    "C02": dict(settings=(2,), stages="E5,SPEC", only="fw", monitors="", small=(2,), spec="fw"),
+    "C03": dict(settings=(2,), stages="E5,SPEC", only="fs", monitors="", small=(2,), spec="fs"),
+    "C04": dict(settings=(2,), stages="E3,E5,SPEC", only="fl", monitors="", small=(2,), spec="fl", algs="lb"),
 }
 
 
@@ -26,6 +32,10 @@ def run(ctx, ob):
                "-small=%s" % ("true" if k in conf["small"] else "false")]
         if conf["monitors"]:
             cmd += ["-monitors", conf["monitors"]]
+        if conf.get("spec"):
+            cmd += ["-spec-kinds", conf["spec"], "-spec-step=true"]
+        if conf.get("algs"):
+            cmd += ["-algs", conf["algs"]]
         p = subprocess.run(cmd, capture_output=True, text=True, timeout=3000)
         if not os.path.exists(out):
             ob.add("EastAsianAmbiguousWidth=%d: harness run" % k, False, p.stdout[-1500:] + p.stderr[-1500:], "correspondence")
@@ -33,13 +43,13 @@ def run(ctx, ob):
         r = json.load(open(out))
         for s in r["stages"]:
             evals += s["evaluations"]
-            kind = "oracle" if s["name"] == "WIDTHSPEC" else "correspondence"
+            kind = "oracle" if s["name"] in ("WIDTHSPEC", "SPEC") else "correspondence"
             ob.add("EastAsianAmbiguousWidth=%d: stage %s (%d evaluations)" % (k, s["name"], s["evaluations"]), s["mismatch_count"] == 0,
                    json.dumps((s["mismatches"] or [])[:4], indent=1), kind)
-            if s["name"] == "WIDTHSPEC":
+            if s["name"] in ("WIDTHSPEC", "SPEC"):
                 for mm in s["mismatches"] or []:
                     hx = mm["op"].split()[-1]
-                    fails.append(dict(kind="widthspec amb=%d" % k, input_hex=hx, input_go=mm.get("note", ""), detail="EastAsianAmbiguousWidth=%d: %s real=%s documented=%s %s" % (k, mm["op"], mm["real"], mm["model"], mm.get("note", ""))))
+                    fails.append(dict(kind="%s amb=%d" % (s["name"].lower(), k), input_hex=hx, input_go=mm.get("note", ""), detail="EastAsianAmbiguousWidth=%d: %s real=%s documented=%s %s" % (k, mm["op"], mm["real"], mm["model"], mm.get("note", ""))))
         for m in r.get("monitors") or []:
             evals += m["evaluations"]
             ob.add("EastAsianAmbiguousWidth=%d: monitor %s on the real code (%d inputs)" % (k, m["property"], m["evaluations"]), m["failure_count"] == 0,
